@@ -30,6 +30,11 @@
 //! ops: {"op":"enter","cs":k,"vals":[v..],"parent":null|-1|i}   {"op":"exit"}   {"op":"record","f":name,"v":v}
 //!      {"op":"event","cs":k,"vals":[v..],"parent":null|-1|i}    {"op":"sync"}
 //!      {"op":"direct","text":s,"method":"write_all"|"write"|"write_vectored"|"write_fmt"|"flush"}  (make_writer() + one call)
+//!      {"op":"race","a":{"f":name,"v":text},"b":{"f":name,"v":text},"wait_ms":N}  two helper threads `record` one field each
+//!         on clones of the innermost open span AT THE SAME TIME: a's Debug impl (running inside on_record) lets b start and
+//!         waits up to N ms for b's Debug impl to run; b's waits for a's call to return.  When on_record holds the span's
+//!         extensions write lock across its read-append-store, b blocks on that lock, a's wait times out and both fields are
+//!         stored (a first).  Observation "races":[[overlapped, a_timed_out]..] per case.
 //! values v: {"i":n} {"u":n} {"b":bool} {"s":str} {"f":float} {"d":raw-debug-text} {"none":1}
 //!           {"panic":pre}  -- Debug writes `pre`, then panics (the harness catches it around the event)
 //!           {"err":pre}    -- Debug writes `pre`, then returns fmt::Error
@@ -395,6 +400,52 @@ impl fmt::Debug for ErrDbg {
     }
 }
 
+/// rendezvous of the two racing `record` calls (see the `race` op)
+struct RaceCtl {
+    begun_a: (Mutex<bool>, std::sync::Condvar),
+    entered_b: (Mutex<bool>, std::sync::Condvar),
+    done_a: (Mutex<bool>, std::sync::Condvar),
+    wait: std::time::Duration,
+    overlap: std::sync::atomic::AtomicBool,
+    timed_out: std::sync::atomic::AtomicBool,
+}
+
+fn flag_set(f: &(Mutex<bool>, std::sync::Condvar)) {
+    *f.0.lock().unwrap() = true;
+    f.1.notify_all();
+}
+
+fn flag_wait(f: &(Mutex<bool>, std::sync::Condvar), d: std::time::Duration) -> bool {
+    let g = f.0.lock().unwrap();
+    let (g, _) = f.1.wait_timeout_while(g, d, |set| !*set).unwrap();
+    *g
+}
+
+struct Gate {
+    text: String,
+    ctl: Arc<RaceCtl>,
+    first: bool,
+    once: std::sync::atomic::AtomicBool,
+}
+impl fmt::Debug for Gate {
+    fn fmt(&self, f: &mut fmt::Formatter<'_>) -> fmt::Result {
+        if !self.once.swap(true, Ordering::SeqCst) {
+            if self.first {
+                flag_set(&self.ctl.begun_a);
+                if flag_wait(&self.ctl.entered_b, self.ctl.wait) {
+                    self.ctl.overlap.store(true, Ordering::SeqCst);
+                } else {
+                    self.ctl.timed_out.store(true, Ordering::SeqCst);
+                }
+            } else {
+                flag_set(&self.ctl.entered_b);
+                let _ = flag_wait(&self.ctl.done_a, self.ctl.wait);
+            }
+        }
+        f.write_str(&self.text)
+    }
+}
+
 struct NestedDbg {
     meta: &'static Metadata<'static>,
     vals: Vec<Val>,
@@ -621,6 +672,7 @@ fn run_program(
     direct: &BoxMakeWriter,
     barrier: &Barrier,
     caught: &Mutex<Vec<J>>,
+    races: &Mutex<Vec<J>>,
 ) {
     let mut stack: Vec<tracing::span::EnteredSpan> = Vec::new();
     for (k, op) in prog.iter().enumerate() {
@@ -679,6 +731,39 @@ fn run_program(
                 }));
                 if r.is_err() {
                     caught.lock().unwrap().push(json!([t, k]));
+                }
+            }
+            "race" => {
+                if let Some(top) = stack.last() {
+                    let span: tracing::Span = (**top).clone();
+                    let ctl = Arc::new(RaceCtl {
+                        begun_a: (Mutex::new(false), std::sync::Condvar::new()),
+                        entered_b: (Mutex::new(false), std::sync::Condvar::new()),
+                        done_a: (Mutex::new(false), std::sync::Condvar::new()),
+                        wait: std::time::Duration::from_millis(op["wait_ms"].as_u64().unwrap_or(300)),
+                        overlap: std::sync::atomic::AtomicBool::new(false),
+                        timed_out: std::sync::atomic::AtomicBool::new(false),
+                    });
+                    let (sa, sb) = (span.clone(), span.clone());
+                    let (ca, cb) = (ctl.clone(), ctl.clone());
+                    let (fa, va) = (op["a"]["f"].as_str().unwrap().to_string(), op["a"]["v"].as_str().unwrap().to_string());
+                    let (fb, vb) = (op["b"]["f"].as_str().unwrap().to_string(), op["b"]["v"].as_str().unwrap().to_string());
+                    let ha = std::thread::spawn(move || {
+                        let g = Gate { text: va, ctl: ca.clone(), first: true, once: std::sync::atomic::AtomicBool::new(false) };
+                        sa.record(fa.as_str(), field::debug(&g));
+                        flag_set(&ca.done_a);
+                        flag_set(&ca.begun_a);
+                    });
+                    let hb = std::thread::spawn(move || {
+                        let _ = flag_wait(&cb.begun_a, std::time::Duration::from_secs(30));
+                        let g = Gate { text: vb, ctl: cb.clone(), first: false, once: std::sync::atomic::AtomicBool::new(false) };
+                        sb.record(fb.as_str(), field::debug(&g));
+                    });
+                    let (ra, rb) = (ha.join(), hb.join());
+                    if ra.is_err() || rb.is_err() {
+                        panic!("a racing record call panicked");
+                    }
+                    races.lock().unwrap().push(json!([ctl.overlap.load(Ordering::SeqCst), ctl.timed_out.load(Ordering::SeqCst)]));
                 }
             }
             "sync" => {
@@ -748,6 +833,7 @@ fn run_case(case: &J) -> J {
     let n = threads.len();
     let barrier = Arc::new(Barrier::new(n));
     let caught = Arc::new(Mutex::new(Vec::new()));
+    let races = Arc::new(Mutex::new(Vec::new()));
     let tids = Arc::new(Mutex::new(vec![String::new(); n]));
     // Full / Compact print `{:0>2?}` (the padding reaches the number inside: ThreadId(02)), Pretty prints `{:?}`
     let tids_plain = Arc::new(Mutex::new(vec![String::new(); n]));
@@ -755,6 +841,7 @@ fn run_case(case: &J) -> J {
     for (t, prog) in threads.into_iter().enumerate() {
         let (dispatch, callsites, direct, barrier, caught, tids, faults, tids_plain) =
             (dispatch.clone(), callsites.clone(), direct.clone(), barrier.clone(), caught.clone(), tids.clone(), faults.clone(), tids_plain.clone());
+        let races = races.clone();
         // fixed-width names: FmtThreadName pads to the longest name seen by the process
         let h = std::thread::Builder::new()
             .name(format!("wk{:02}", t))
@@ -767,10 +854,10 @@ fn run_case(case: &J) -> J {
                 let prog = prog.as_array().unwrap().clone();
                 barrier.wait();
                 if global {
-                    run_program(t, &prog, &callsites, &direct, &barrier, &caught);
+                    run_program(t, &prog, &callsites, &direct, &barrier, &caught, &races);
                 } else {
                     CUR.with(|c| *c.borrow_mut() = Some(dispatch.clone()));
-                    tracing_core::dispatch::with_default(&dispatch, || run_program(t, &prog, &callsites, &direct, &barrier, &caught));
+                    tracing_core::dispatch::with_default(&dispatch, || run_program(t, &prog, &callsites, &direct, &barrier, &caught, &races));
                     CUR.with(|c| *c.borrow_mut() = None);
                 }
             })
@@ -787,7 +874,8 @@ fn run_case(case: &J) -> J {
     let tids = tids.lock().unwrap().clone();
     let tids_plain = tids_plain.lock().unwrap().clone();
     let caught = caught.lock().unwrap().clone();
-    json!({"id": case["id"], "tids": tids, "tids_plain": tids_plain, "log": entries, "caught": caught, "thread_panics": thread_panics})
+    let races = races.lock().unwrap().clone();
+    json!({"races": races, "id": case["id"], "tids": tids, "tids_plain": tids_plain, "log": entries, "caught": caught, "thread_panics": thread_panics})
 }
 
 fn main() {
